@@ -286,6 +286,20 @@ func genExec() (string, error) {
 		}
 	}
 	emit("validateProposalFirst", "ValidateProposal: first non-logging statement", []string{first})
+	// the governance-proposal mode switch of ValidateProposal and the statement right after it
+	var modeScope []string
+	for i, st := range vp.Body.List {
+		if strings.Contains(g.StmtText(st), "c.SetFSMInConsensusModeForProposals()") {
+			modeScope = append(modeScope, g.StmtText(st))
+			for _, nx := range vp.Body.List[i+1:] {
+				if t := g.StmtText(nx); !noise(t) {
+					modeScope = append(modeScope, t)
+					break
+				}
+			}
+		}
+	}
+	emit("validateProposalModeScope", "ValidateProposal: the statement that puts both state machines into the strict governance-proposal mode, and the statement directly after it", modeScope)
 	emit("validateProposalCalls", "ValidateProposal: controller/FSM calls in source order", callSeq(vp.Body, []string{"c.FSM.Reset", "c.resetFSM", "c.SetFSMInConsensusModeForProposals", "qc.CheckProposalBasic", "c.Consensus.ValidateByzantineEvidence", "c.ApplyAndValidateBlock", "c.NewCertificateResults", "qc.Results.Equals"}))
 	emit("commitCertificateDefers", "CommitCertificate: top-level deferred calls (call text)", topDefers(cc))
 	var replay []string
